@@ -125,6 +125,25 @@ CHECKS = {
         design="4/C18", technique="Lean 4 proof (string round trip; decide +kernel over rate templates) + write/read differential check",
         note="alpha/beta/gamma are compared at the printed precision (10.3e); species order inside a reaction is preserved as a "
              "multiset (the writer sorts names); F15-* are known findings (export keeps only the basic type number)."),
+    "C08": dict(
+        text="Theorems walk_covers (for every configuration and match list: a successful walk means the matched symbols tile "
+             "the name with digit runs only between and after them - no foreign character can be skipped), pair_table (kernel "
+             "evaluation over all ordered pairs of the default elements regenerated from the source, with counts), "
+             "longest_first_examples (He, Fe, Si, Mg never split), foreign_rejected_examples, charge_plus / charge_minus, "
+             "massNumber_additive. Tie: thousands of names spelled from random compositions over three configurations (default, "
+             "'G' prefix, upper-case list with replacement) plus a malformed stream: every observable attribute of the real "
+             "Species compared with the model; oracle = the spelled composition.",
+        design="4/C08", technique="Lean 4 proof (walk invariant; decide +kernel over the symbol table) + large differential check",
+        note="Partial (named): the later matching passes on arbitrary user lists are characterised only through walk_covers and "
+             "the default-list table; the upper-case alias replacement is compared by the oracle, not modelled."),
+    "C09": dict(
+        text="Theorems idx_bijective (macro values are 0..n-1 in order; identifiers distinct iff aliases distinct), "
+             "ident_legal_iff (IDX_<alias> is a legal identifier iff the basename is alphanumeric), alias_shape, "
+             "artefacts_agree, F9_witness, F10_fixed. Tie: naming-convention networks and random ones rendered for several "
+             "back-ends, enzo patch and `naunet render` summary: macros, Python constants, summary and per-species table "
+             "compared with each other, with the model's aliases and with the identifier grammars.",
+        design="4/C09", technique="Lean 4 proof (list maps, identifier characterisation) + cross-artefact differential check",
+        note="F9 (H2*, c-C3H2, l-C3H give illegal identifiers) is a known finding; ident_legal_iff names the excluded class."),
 }
 
 NOT_YET = {}
